@@ -35,6 +35,11 @@ DEST_DIM = {"nodes": "n_node", "edge centers": "n_edge", "face centers": "n_face
 def cases(tier, seed):
     rng = np.random.default_rng([seed, 1212])
     n = 110 if tier == "quick" else 10000
+    # destinations whose element counts sit next to powers of two (block sizes of chunked neighbour searches): 2^12 + 1 and 2^15 + 1
+    # face centres, 2^13 + 2 nodes ...
+    for nface in ([4097] if tier == "quick" else [4097, 8193, 32769, 10923]):
+        yield {"src": {"family": "voronoi", "n": 14, "seed": 5, "ops": []}, "dst": {"family": "ring_strip", "n": nface, "ops": []}, "same": False, "source_kind": "topology",
+               "dseed": nface, "lead": [], "sized": True}
     coincide = [{"family": "polyhedron", "name": nm, "ops": []} for nm in ("tetrahedron", "pyramid", "pentapyramid")]
     for i in range(n):
         r = i % 6
@@ -101,7 +106,7 @@ def run_case(ctx, case):
     counts = {"n_node": gs_twin.n_node, "n_edge": gs_twin.n_edge, "n_face": gs_twin.n_face}
     lead = tuple(case["lead"])
     ldims = ["t%d" % i for i in range(len(lead))]
-    for dim in ("n_face", "n_node", "n_edge"):
+    for dim in (("n_face", "n_node", "n_edge") if not case.get("sized") else ("n_face",)):
         kind = KINDS[dim]
         ne = counts[dim]
         coincide = sorted(d for d in counts if d != dim and counts[d] == ne)
@@ -131,7 +136,7 @@ def run_case(ctx, case):
         if case["dseed"] % 4 == 1:
             da = da.chunk({dim: max(1, ne // 2)})  # dask-backed source data
             ctx.observe("dask_backed_source_data")
-        for remap_to in DESTS:
+        for remap_to in (DESTS if not case.get("sized") else ["face centers"]):
             P_dst = positions(gd_twin, remap_to)
             nd = len(P_dst)
             D = nn.distances("haversine", P_src, None, q_xyz=P_dst)  # (nd, ne)
@@ -190,6 +195,8 @@ def run_case(ctx, case):
                 if ne < 2:
                     continue
                 k = int(min(ne, rng.integers(2, 9)))
+                if case.get("sized"):
+                    k = int(min(ne, {4097: 8, 8193: 4, 10923: 3}.get(nd, k)))  # 2^15 // k + 1 destination points
                 power = int(rng.choice([1, 2, 5]))
                 sigw = dict(sig, k=min(k, 9), power=power, k_eq_n=(k == ne))
                 try:
